@@ -9,7 +9,7 @@
    denotes ([phys_id]: no symbolic links); [r_failed_early r]: the log has
    errors when the write phase starts (scan, link, overwrite/duplicate checks,
    cancellation); [r_errors r]: the build reports errors (also on-end errors). *)
-From V Require Import Common.Base C17.WriteSM C17.Spec C17.Proofs C17.CompileProofs C17.DiskProofs C17.SpecProofs C17.Findings.
+From V Require Import Common.Base C17.WriteSM C17.Spec C17.Proofs C17.CompileProofs C17.DiskProofs C17.SpecProofs C17.IOFail C17.Findings.
 
 (* ---- mechanism: validateBuildOptions ---- *)
 Theorem allow_overwrite_forced_only_without_write :
@@ -246,3 +246,56 @@ Theorem before_fix_spec_failed_unchanged_refuted :
     ~ spec_failed_unchanged (obs_of opt st st' oc r own).
 Proof. exact before_fix_spec_failed_unchanged_refuted_w. Qed.
 Print Assumptions before_fix_spec_failed_unchanged_refuted.
+
+(* ---- failures DURING the write phase ([step_io]: [step_gen] plus the set of
+   output paths at which mkdir/write fails; the harness evaluates [step_io]) ---- *)
+
+(* without write failures [step_io] is [step_gen]: every theorem above is about
+   the function the correspondence check runs *)
+Theorem step_io_without_failures_is_step_gen :
+  forall phys fixed opt st oc, step_io phys fixed opt st oc [] = step_gen phys fixed opt st oc.
+Proof. exact step_io_nil. Qed.
+Print Assumptions step_io_without_failures_is_step_gen.
+
+(* with write failures: still every write is a reported output of a build
+   without early error, and never at a failing path *)
+Theorem io_writes_are_reported_and_avoid_failing_paths :
+  forall phys fixed opt st oc wf st' r p c,
+    step_io phys fixed opt st oc wf = (st', r) -> In (EWrite p c) (r_effects r) ->
+    r_failed_early r = false /\ write opt = true /\ to_stdout opt = false /\ ~ In p wf /\
+    exists o, In o (r_outputs r) /\ o_path o = p /\ o_data o = c.
+Proof. exact io_writes_are_reported. Qed.
+Print Assumptions io_writes_are_reported_and_avoid_failing_paths.
+
+(* an attempted write that fails is never silent: the build reports errors *)
+Theorem io_failure_reports_error :
+  forall phys fixed opt st oc wf st' r o,
+    step_io phys fixed opt st oc wf = (st', r) ->
+    r_failed_early r = false -> write opt = true -> to_stdout opt = false ->
+    In o (r_outputs r) -> skip phys st (latest st') o = false -> In (o_path o) wf ->
+    r_errors r = true.
+Proof. exact io_failure_is_reported. Qed.
+Print Assumptions io_failure_reports_error.
+
+(* REFUTED (inside the statement by the property text: the build "reports
+   errors"; by nature of concurrent writes without staging): the error arises
+   while the other files are being written.  Replayed: out/a.js is a directory *)
+Theorem write_error_build_writes_nothing_refuted :
+  exists opt d0 oc wf,
+    let st1 := fst (step_io phys_id true opt (init d0) oc wf) in
+    let r1 := snd (step_io phys_id true opt (init d0) oc wf) in
+    r_errors r1 = true /\ r_failed_early r1 = false /\
+    exists p, lookup d0 p = None /\ lookup (disk st1) p <> None.
+Proof. exact write_error_build_writes_nothing_refuted_w. Qed.
+Print Assumptions write_error_build_writes_nothing_refuted.
+
+(* REFUTED: with a write failure in the history, deletes_only_own_earlier_outputs
+   fails - the failed path is in the hash table and is "deleted" by a later
+   rebuild although no rebuild wrote it (replayed: the user's empty directory
+   out/a.js is removed) *)
+Theorem deletes_only_own_under_write_failure_refuted :
+  exists opt d0 oc1 wf oc2 r1 r2,
+    trace_io phys_id true opt (init d0) [(oc1, wf); (oc2, [])] = [r1; r2] /\
+    exists p, In (EDelete p) (r_effects r2) /\ ~ In p (written_paths [r1]).
+Proof. exact deletes_only_own_under_write_failure_refuted_w. Qed.
+Print Assumptions deletes_only_own_under_write_failure_refuted.
